@@ -278,7 +278,7 @@ fn compare<T: Sc>(
             (Some(x), Some(y), false) => state_close::<T>(world, x, y),
             _ => Some(false),
         };
-        if verdict == Some(false) {
+        if verdict != Some(true) {
             rep.violate(sc, class, &format!("{what}/build"), "state after build() differs".into());
         } else {
             rep.probe("state_equal_up_to_rounding_between_flavours");
@@ -377,15 +377,20 @@ fn compare<T: Sc>(
                             // one flavour refactored at rounding level: accept residuals that agree
                             // up to rounding and stop the step-by-step comparison (the optimizers
                             // may take different paths from here)
-                            let verdict = match &walk_params {
-                                Some(p) => {
-                                    let a = Snap { params: p.clone(), resid: Some(x.clone()), coeff: Some(vec![]), coeff_shape: (0, 0) };
-                                    let b = Snap { params: p.clone(), resid: Some(y.clone()), coeff: Some(vec![]), coeff_shape: (0, 0) };
-                                    state_close::<T>(world, &a, &b)
-                                }
-                                None => None,
-                            };
-                            if verdict == Some(false) {
+                            // inside the fit the coefficients are not visible: a generous rounding
+                            // bound on the residuals' own scale (a defect differs by far more)
+                            let (vx, vy): (Vec<T>, Vec<T>) = (to_t(x), to_t(y));
+                            let fin = |v: f64| if v.is_finite() { v.abs() } else { 0.0 };
+                            let scale = vx.iter().chain(vy.iter()).map(|v| fin(v.f())).fold(0.0f64, f64::max).max(world.weighted_y().iter().map(|v| fin(v.f())).fold(0.0f64, f64::max));
+                            let tol = if T::NAME == "f64" { 1e-9 } else { 1e-4 };
+                            let ok = vx.len() == vy.len()
+                                && vx.iter().zip(vy.iter()).all(|(p, q)| {
+                                    let (p, q) = (p.f(), q.f());
+                                    p == q || !p.is_finite() || !q.is_finite() || (p - q).abs() <= tol * scale + 8.0 * T::tiny()
+                                });
+                            let verdict = Some(ok);
+                            let _ = &walk_params;
+                            if verdict != Some(true) {
                                 rep.violate(sc, class, &format!("{what}/{name}/residuals"), format!("op {}: inside the fit the residuals of the two flavours differ beyond rounding", sa.op));
                             } else {
                                 rep.probe("residuals_equal_up_to_rounding_between_flavours");
@@ -451,18 +456,15 @@ fn compare<T: Sc>(
                         rep.probe("state_equal_up_to_rounding_between_flavours");
                         jac_bitwise_so_far = false;
                     }
-                    None => {
-                        rep.probe("state_comparison_gated_between_flavours");
-                        jac_bitwise_so_far = false;
-                    }
-                    Some(false) => {}
+                    // undecidable: reported below, as under the bitwise rule
+                    None | Some(false) => {}
                 }
             }
         }
         if !strict && !jac_bitwise_so_far && sa.snap != sb.snap && !matches!(op, Op::Fit | Op::FitWithStatistics) {
             // toleranced regime: the states must still agree up to rounding
             if let (Some(x), Some(y)) = (&sa.snap, &sb.snap) {
-                if state_close::<T>(world, x, y) == Some(false) {
+                if state_close::<T>(world, x, y) != Some(true) {
                     rep.violate(sc, class, &format!("{what}/{name}/state"), format!("op {}: residuals/coefficients/parameters of the two flavours differ beyond rounding after {name}", sa.op));
                 }
             } else if sa.snap.is_some() != sb.snap.is_some() {
